@@ -3,11 +3,13 @@
 package hash
 
 import (
+	"encoding/hex"
 	"encoding/json"
 	"strconv"
 	"testing"
 
 	"github.com/gotid/god/internal/verifdrv"
+	"github.com/spaolacci/murmur3"
 )
 
 type verifStructNode struct {
@@ -24,6 +26,11 @@ type verifOp struct {
 	Op   string `json:"op"` // add | addw | addr | remove
 	Node int    `json:"node"`
 	Arg  int    `json:"arg"`
+}
+
+type verifHashCase struct {
+	Kind string   `json:"kind"`
+	Data []string `json:"data"` // hex
 }
 
 type verifCase struct {
@@ -54,6 +61,18 @@ func verifNode(cache map[int]any, id int) any {
 // operation. The hash function is the default one (murmur3) wrapped so that it can be tabulated.
 func TestVerifDriver(t *testing.T) {
 	verifdrv.Run(t, func(raw json.RawMessage) any {
+		var hc verifHashCase
+		if err := json.Unmarshal(raw, &hc); err == nil && hc.Kind == "hash" {
+			// Hash must be murmur3.Sum64 of the WHOLE input (the default hash function of the property)
+			got := make([]uint64, len(hc.Data))
+			want := make([]uint64, len(hc.Data))
+			for i, h := range hc.Data {
+				b, _ := hex.DecodeString(h)
+				got[i] = Hash(b)
+				want[i] = murmur3.Sum64(b)
+			}
+			return map[string]any{"got": got, "ref": want}
+		}
 		var c verifCase
 		if err := json.Unmarshal(raw, &c); err != nil {
 			return map[string]any{"error": err.Error()}
